@@ -3,6 +3,7 @@ package rules
 import (
 	"fmt"
 	"go/token"
+	"go/types"
 	"sort"
 	"strings"
 
@@ -38,10 +39,16 @@ func init() {
 			"or removal, the per-key staking data and the nodes configuration are each saved (or their entry deleted) on every success path after they were modified - a neighbour whose pointer was rewired but not saved " +
 			"leaves a list whose links, length and markers disagree. (S2) the staked-node counter moves with the Staked flag: a store of `Staked = true` is accompanied on every path by addToStakedNodes (in the same " +
 			"function, or - when the record is a parameter - around every call of that helper), and every call of removeFromStakedNodes is followed by a store of `Staked = false` before a success return. " +
+			"(S3) links are updated in pairs: when an element's NextKey (PreviousKey) is set to the key of another element, that other element is loaded in the same function and its PreviousKey (NextKey) is written too; " +
+			"the end markers (own key as PreviousKey of the first element, empty NextKey of the last) are exempt. A one-sided link leaves an element that still marks itself as first, and removing it later cuts the real first element out of the list. " +
+			"(S4) removeFromWaitingList reaches a success return, once the length was decremented, only through a store of LastJailedKey, the deletion of the head, or the branch on which the removed key is known not to be the last-jailed marker; " +
+			"functions that prefix a BLS key themselves (add/removeFromWaitingList, ...) are never handed an already prefixed key. " +
 			"Not decided (value-level): which element becomes first/last/last-jailed, the comparison of the counter with the configured maximum, feature-flag dependent branches.",
 		Run: func(c *core.Ctx) {
 			runWriteBack(c, "C39", "stakingSC", 15, nil)
 			c39Counters(c)
+			c39LinksInPairs(c)
+			c39MarkerAndKeys(c)
 		},
 	})
 }
@@ -445,4 +452,328 @@ func onlyFailureCodesFrom(b *ssa.BasicBlock) bool {
 		return true
 	}
 	return walk(b)
+}
+
+// c39LinksInPairs: the waiting list is doubly linked: a link written on one element is mirrored
+// on the neighbour it points to.
+func c39LinksInPairs(c *core.Ctx) {
+	const pkg = "vm/systemSmartContracts"
+	next := c.P.Field(pkg, "ElementInList", "NextKey")
+	prev := c.P.Field(pkg, "ElementInList", "PreviousKey")
+	getEl := c.P.Method(pkg, "stakingSC", "getWaitingListElement")
+	if next == nil || prev == nil || getEl == nil {
+		c.Undecided("anchor", "ElementInList links", 0, "NextKey/PreviousKey/getWaitingListElement not found")
+		return
+	}
+	keyFields := map[string]bool{"FirstKey": true, "LastKey": true, "LastJailedKey": true, "NextKey": true, "PreviousKey": true}
+	n := 0
+	for _, fn := range c.P.FuncsOfPkg(pkg) {
+		if fn.Signature.Recv() == nil || !strings.HasSuffix(fn.Signature.Recv().Type().String(), ".stakingSC") {
+			continue
+		}
+		// origins of a key value: the list/element fields it was read from ("" element: the element's own key or an empty key)
+		// origins of a key value, followed structurally (no flow-insensitive load/store matching): a
+		// load of a key field of the list head or of an element (with forwarding of a dominating store
+		// to the same field in this function), a fresh buffer the key was copied into, a phi; the
+		// element's own key (createWaitingListKey) has no origin in the list
+		var origins func(v ssa.Value, at ssa.Instruction) (map[string]bool, bool)
+		depth := 0
+		origins = func(v ssa.Value, at ssa.Instruction) (map[string]bool, bool) {
+			out := map[string]bool{}
+			own := false
+			depth++
+			defer func() { depth-- }()
+			if depth > 6 || v == nil {
+				return out, own
+			}
+			merge := func(o map[string]bool, w bool) {
+				for k := range o {
+					out[k] = true
+				}
+				if w {
+					own = true
+				}
+			}
+			switch x := v.(type) {
+			case *ssa.Call:
+				if x.Call.StaticCallee() != nil && x.Call.StaticCallee().Name() == "createWaitingListKey" {
+					own = true
+				}
+			case *ssa.Phi:
+				for _, e := range x.Edges {
+					merge(origins(e, at))
+				}
+			case *ssa.MakeSlice:
+				if x.Referrers() != nil {
+					for _, r := range *x.Referrers() {
+						if call, ok := r.(*ssa.Call); ok {
+							if b, isB := call.Call.Value.(*ssa.Builtin); isB && b.Name() == "copy" && call.Call.Args[0] == ssa.Value(x) {
+								merge(origins(call.Call.Args[1], call))
+							}
+						}
+					}
+				}
+			case *ssa.UnOp:
+				base, f := core.FieldLoad(x)
+				if f == nil || !keyFields[f.Name()] || base == nil {
+					break
+				}
+				forwarded := false
+				var last *ssa.Store
+				core.Instrs(fn, func(in ssa.Instruction) {
+					st, ok := in.(*ssa.Store)
+					if !ok || core.ExprKey(st.Addr) != core.ExprKey(x.X) || !core.DominatesInstr(st, x) {
+						return
+					}
+					if last == nil || core.DominatesInstr(last, st) {
+						last = st
+					}
+				})
+				if last != nil {
+					forwarded = true
+					merge(origins(last.Val, last))
+				}
+				if !forwarded {
+					out[core.ExprKey(x)] = true
+				}
+			}
+			return out, own
+		}
+		type loaded struct {
+			rec  ssa.Value
+			keys map[string]bool
+		}
+		var elems []loaded
+		for _, in := range core.CallsIn(fn, func(in ssa.Instruction, cc *ssa.CallCommon) bool { return cc.StaticCallee() == getEl }) {
+			call := in.(*ssa.Call)
+			var rec ssa.Value
+			if call.Referrers() != nil {
+				for _, r := range *call.Referrers() {
+					if ex, ok := r.(*ssa.Extract); ok && ex.Index == 0 {
+						rec = ex
+					}
+				}
+			}
+			if rec == nil {
+				continue
+			}
+			ks, _ := origins(call.Call.Args[1], in)
+			elems = append(elems, loaded{rec, ks})
+		}
+		writesField := func(rec ssa.Value, f *types.Var) bool {
+			hit := false
+			core.Instrs(fn, func(in ssa.Instruction) {
+				if st, ok := in.(*ssa.Store); ok {
+					if fa, ok := st.Addr.(*ssa.FieldAddr); ok && fa.X == rec && core.FieldOfAddr(fa) == f {
+						hit = true
+					}
+				}
+			})
+			return hit
+		}
+		k := 0
+		core.Instrs(fn, func(in ssa.Instruction) {
+			st, ok := in.(*ssa.Store)
+			if !ok {
+				return
+			}
+			fa, ok := st.Addr.(*ssa.FieldAddr)
+			if !ok {
+				return
+			}
+			f := core.FieldOfAddr(fa)
+			if f != next && f != prev {
+				return
+			}
+			if isEmptyBytes(st.Val) {
+				return // end of the list
+			}
+			os, own := origins(st.Val, st)
+			// `PreviousKey: make(..)` filled afterwards by copy(elem.PreviousKey, src)
+			if _, isMk := st.Val.(*ssa.MakeSlice); isMk && len(os) == 0 {
+				core.Instrs(fn, func(in2 ssa.Instruction) {
+					call, ok := in2.(*ssa.Call)
+					if !ok {
+						return
+					}
+					b, isB := call.Call.Value.(*ssa.Builtin)
+					if !isB || b.Name() != "copy" {
+						return
+					}
+					if u, isU := call.Call.Args[0].(*ssa.UnOp); isU && core.ExprKey(u.X) == core.ExprKey(st.Addr) {
+						o2, _ := origins(call.Call.Args[1], call)
+						for k2 := range o2 {
+							os[k2] = true
+						}
+					}
+				})
+			}
+			if len(os) == 0 {
+				return // the element's own key (first-element marker) or a key that is not read from the list
+			}
+			_ = own
+			k++
+			n++
+			c.Analysed(fname(fn))
+			opposite := prev
+			if f == prev {
+				opposite = next
+			}
+			ok2, why := false, "the element stored under that key is not loaded in this function"
+			for _, e := range elems {
+				shared := false
+				for o := range os {
+					if e.keys[o] {
+						shared = true
+					}
+				}
+				if !shared {
+					continue
+				}
+				if e.rec == fa.X {
+					ok2 = true // the element is given its own key: the first-element marker
+					break
+				}
+				if writesField(e.rec, opposite) {
+					ok2 = true
+					break
+				}
+				why = "the element stored under that key is loaded but its " + opposite.Name() + " is not written"
+			}
+			var osl []string
+			for o := range os {
+				osl = append(osl, o)
+			}
+			if os2 := os; len(os2) > 0 && false {
+				fmt.Println()
+			}
+			sort.Strings(osl)
+			name := fmt.Sprintf("%s/%s#%d", fname(fn), f.Name(), k)
+			if !ok2 {
+				name = fmt.Sprintf("%s/%s←%s", fname(fn), f.Name(), strings.Join(osl, ","))
+			}
+			c.Check(ok2, "C39/links-updated-in-pairs", name, st.Pos(),
+				"the neighbour this link points to (key read from "+strings.Join(osl, ", ")+") is loaded and its "+opposite.Name()+" is written in the same function",
+				fmt.Sprintf("%s of an element is set to a key read from %s, but %s: the neighbour keeps its old back link (e.g. still marks itself as the first element), and removing it later cuts elements out of the list while Length still counts them", f.Name(), strings.Join(osl, ", "), why))
+		})
+	}
+	c.Floor("C39/links-updated-in-pairs", 5)
+}
+
+func isEmptyBytes(v ssa.Value) bool {
+	switch x := v.(type) {
+	case *ssa.Slice:
+		if al, ok := x.X.(*ssa.Alloc); ok {
+			if pt, ok := al.Type().Underlying().(*types.Pointer); ok {
+				if at, ok := pt.Elem().Underlying().(*types.Array); ok && at.Len() == 0 {
+					return true
+				}
+			}
+		}
+	case *ssa.MakeSlice:
+		if n, ok := core.ConstInt(x.Len); ok && n == 0 {
+			return true
+		}
+	case *ssa.Const:
+		return x.IsNil()
+	}
+	return false
+}
+
+// c39MarkerAndKeys: the last-jailed marker never keeps pointing at a removed element, and raw BLS
+// keys are not confused with prefixed list keys.
+func c39MarkerAndKeys(c *core.Ctx) {
+	const pkg = "vm/systemSmartContracts"
+	if fn := anchorM(c, pkg, "stakingSC", "removeFromWaitingList"); fn != nil {
+		c.Analysed(fname(fn))
+		lj := c.P.Field(pkg, "WaitingList", "LastJailedKey")
+		ln := c.P.Field(pkg, "WaitingList", "Length")
+		var dec ssa.Instruction
+		core.Instrs(fn, func(in ssa.Instruction) {
+			if st, ok := in.(*ssa.Store); ok {
+				if fa, ok := st.Addr.(*ssa.FieldAddr); ok && core.FieldOfAddr(fa) == ln {
+					dec = in
+				}
+			}
+		})
+		if dec == nil || lj == nil {
+			c.Undecided("C39/last-jailed-marker-follows-removal", "stakingSC.removeFromWaitingList", fn.Pos(), "the length update or the LastJailedKey field was not found")
+		} else {
+			fixes := func(in ssa.Instruction) bool {
+				if st, ok := in.(*ssa.Store); ok {
+					if fa, ok := st.Addr.(*ssa.FieldAddr); ok && core.FieldOfAddr(fa) == lj {
+						return true
+					}
+				}
+				cc := core.CallOf(in)
+				return cc != nil && cc.IsInvoke() && cc.Method.Name() == "SetStorage" && len(cc.Args) == 2 && core.IsNilConst(cc.Args[1])
+			}
+			notMarker := func(b *ssa.BasicBlock, si int) bool {
+				ifi, ok := b.Instrs[len(b.Instrs)-1].(*ssa.If)
+				if !ok {
+					return false
+				}
+				cond, falseSucc := ifi.Cond, 1
+				if u, isU := cond.(*ssa.UnOp); isU && u.Op == token.NOT {
+					cond, falseSucc = u.X, 0
+				}
+				call, isCall := cond.(*ssa.Call)
+				if !isCall || call.Call.StaticCallee() == nil || call.Call.StaticCallee().Name() != "Equal" || si != falseSucc {
+					return false
+				}
+				for _, a := range call.Call.Args {
+					if _, f := core.FieldLoad(a); f == lj {
+						return true
+					}
+				}
+				return false
+			}
+			esc, path := core.PathQ{Fn: fn, From: dec, Via: fixes, ViaEdge: notMarker, Target: core.SuccessReturn}.Escape()
+			c.Check(esc == nil, "C39/last-jailed-marker-follows-removal", "stakingSC.removeFromWaitingList", dec.Pos(),
+				"after the removal every success return lies behind an update of LastJailedKey, the deletion of the head, or the test that the removed key is not the marker",
+				"an element can be removed with a success return that neither updates LastJailedKey nor tested that the removed key is not the marker ("+c.P.PathString(path)+"): the marker keeps pointing at a deleted element and the next insertion after the last jailed key fails")
+		}
+	}
+	// raw keys vs prefixed keys
+	prefixers := map[*ssa.Function]int{}
+	mk := c.P.Method(pkg, "stakingSC", "createWaitingListKey")
+	if mk == nil {
+		return
+	}
+	for _, fn := range c.P.FuncsOfPkg(pkg) {
+		for _, in := range core.CallsIn(fn, func(in ssa.Instruction, cc *ssa.CallCommon) bool { return cc.StaticCallee() == mk }) {
+			arg := core.CallOf(in).Args[1]
+			for i, p := range fn.Params {
+				if arg == ssa.Value(p) {
+					prefixers[fn] = i
+				}
+			}
+		}
+	}
+	n := 0
+	for _, fn := range c.P.FuncsOfPkg(pkg) {
+		k := 0
+		core.Instrs(fn, func(in ssa.Instruction) {
+			cc := core.CallOf(in)
+			if cc == nil || cc.StaticCallee() == nil {
+				return
+			}
+			i, ok := prefixers[cc.StaticCallee()]
+			if !ok || i >= len(cc.Args) {
+				return
+			}
+			k++
+			n++
+			already := false
+			for x := range core.BackwardReachPure(cc.Args[i]) {
+				if call, isCall := x.(*ssa.Call); isCall && call.Call.StaticCallee() == mk {
+					already = true
+				}
+			}
+			c.Check(!already, "C39/raw-keys-not-prefixed-twice", fmt.Sprintf("%s→%s#%d", fname(fn), fname(cc.StaticCallee()), k), in.Pos(),
+				"the callee prefixes the key itself and is handed a raw key",
+				"the callee prefixes the key itself but is handed a key that was already prefixed with createWaitingListKey: it looks up a key that does not exist and silently does nothing, so the element stays in the list while the node is marked staked")
+		})
+	}
+	c.Floor("C39/raw-keys-not-prefixed-twice", 5)
 }
